@@ -39,7 +39,7 @@ pub fn prop() -> HistProp {
         quick: 4000,
         thorough: 60000,
         mk: |_, _, _| Box::new(C13 { nontrivial: false }),
-        extra: None,
+        extra: Some((4, |t| registry_scenario_strategy(&prop().profile.clone()(t), (prop().cfgs)()))),
         many_batches: 0,
     }
 }
